@@ -90,6 +90,29 @@ def gcc_case(cli, sc, idx, prog, branch):
         p = sh(compile_cmd(u), b)
         if p.returncode != 0:
             return {"driver_error": "gcc (stale recompilation) failed: " + p.stderr.decode()[-500:]}
+    # corrupted counter: gcov succeeds on the unit but its JSON carries "count": -1, which grcov's parser rejects
+    corrupt = []
+    for u in prog.get("corrupt", []):
+        gp = os.path.join(b, u[:-2] + ".gcda")
+        if u in stale or not os.path.exists(gp):
+            continue
+        orig = open(gp, "rb").read()
+        if not tg.corrupt_gcda(gp):
+            continue
+        probe = os.path.join(d, "probe_" + str(len(corrupt)))
+        os.makedirs(probe)
+        sh(["gcov"] + (["-b", "-c"] if branch else []) + ["-j", os.path.join(b, u[:-2] + ".gcno")], probe)
+        rejected = False
+        for fn in os.listdir(probe):
+            try:
+                rejected = rejected or tg.json_rejected(tg.read_gcov_json(os.path.join(probe, fn)))
+            except Exception:
+                rejected = True
+        if rejected:
+            corrupt.append(u)
+        else:
+            with open(gp, "wb") as f:      # the corruption did not surface as a negative counter: keep the unit healthy
+                f.write(orig)
     for sd in ("sub", "include"):
         if not os.listdir(os.path.join(b, sd)):
             os.rmdir(os.path.join(b, sd))
@@ -104,6 +127,12 @@ def gcc_case(cli, sc, idx, prog, branch):
             # gcov itself rejects this unit: it has no account and must contribute nothing to the report
             if p.returncode == 0:
                 return {"driver_error": "gcov accepted a unit that was meant to be stale: " + u}
+            for fn in os.listdir(acct):
+                if fn.endswith(".gcov") or fn.endswith(".gcov.json.gz"):
+                    os.remove(os.path.join(acct, fn))
+            continue
+        if u in corrupt:
+            # grcov must reject this unit as a whole: it has no place in the account either
             for fn in os.listdir(acct):
                 if fn.endswith(".gcov") or fn.endswith(".gcov.json.gz"):
                     os.remove(os.path.join(acct, fn))
@@ -147,7 +176,8 @@ def gcc_case(cli, sc, idx, prog, branch):
         left = []
         for fn in sorted(os.listdir(w)):
             try:
-                rs = tg.json_as_grcov(tg.read_gcov_json(os.path.join(w, fn)))
+                js_ = tg.read_gcov_json(os.path.join(w, fn))
+                rs = None if tg.json_rejected(js_) else tg.json_as_grcov(js_)
             except Exception:
                 rs = None
             left.append([fn, rs])
@@ -162,10 +192,19 @@ def gcc_case(cli, sc, idx, prog, branch):
             continue
         rep, dup = tg.read_lcov(p.stdout.decode(errors="replace"))
         reports[n] = {"report": rep, "dup": dup}
+    # the same run without the corrupted units: must give the same report
+    without = None
+    if corrupt and len(corrupt) < len(prog["units"]):      # (with no unit left grcov has no input at all)
+        good = os.path.join(d, "good")
+        skip = {u[:-2] + e for u in corrupt for e in (".gcno", ".gcda")}
+        shutil.copytree(b, good, ignore=lambda dd, names: [n for n in names if os.path.normpath(os.path.join(os.path.relpath(dd, b), n)) in skip])
+        p = sh([cli, good, "-t", "lcov", "--threads", "1", "--no-demangle"] + (["--branch"] if branch else []),
+               d, env={"TMPDIR": os.path.join(d, "tmp")})
+        without = tg.read_lcov(p.stdout.decode(errors="replace"))[0] if p.returncode == 0 else {"exit": p.returncode}
     leftover = os.listdir(os.path.join(d, "tmp"))
     shutil.rmtree(d, ignore_errors=True)
     return {"text": text_acc, "json": {k: {"lines": v["lines"], "funcs": v["funcs"], "multi": sorted(v["multi"])} for k, v in json_acc.items()},
-            "items": items, "reports": reports, "tmp_leftover": leftover}
+            "items": items, "reports": reports, "tmp_leftover": leftover, "corrupt": corrupt, "stale": stale, "without": without}
 
 
 def gcc_item_coq(it):
@@ -228,13 +267,18 @@ def gcc_stream(chk, cli, ncases):
     h2 = {"files": {"m0.c": "#include <stdlib.h>\nunsigned long spin(unsigned long n);\n" + hmain, "spin.c": spin % "", "other.c": unit(1)},
           "units": ["m0.c", "spin.c", "other.c"], "runs": ["18014398509481985", "4611686018427387905", "2"], "pair_line": False,
           "opt": "-O2", "expect_big": True}
+    # corrupted-counter units under several names (the order of the work items depends on the names)
+    c1 = dict(d1, corrupt=["alpha.c"])
+    c2 = dict(d1, corrupt=["stats.v2.c"], runs=["5"])
+    c3 = dict(d2, corrupt=["zeta.c"])
+    c4 = dict(d2, corrupt=["m0.c"], runs=["1", "1"])
     progs = [(-1, w, False), (-2, d1, True), (-3, d2, False), (-4, d3, False), (-5, d4, True), (-6, d5, True), (-7, d6, True),
-             (-8, h1, True), (-9, h2, False)] + progs
+             (-8, h1, True), (-9, h2, False), (-10, c1, False), (-11, c2, True), (-12, c3, False), (-13, c4, True)] + progs
     with concurrent.futures.ThreadPoolExecutor(max_workers=8) as ex:
-        outs = list(ex.map(lambda t: gcc_case(cli, sc, t[0] + 9, t[1], t[2]), progs))
+        outs = list(ex.map(lambda t: gcc_case(cli, sc, t[0] + 13, t[1], t[2]), progs))
     known = {e["key"]: e for e in vlib.known_findings(chk.pid) if e.get("status") == "known"}
     dist = {"programs": len(progs), "runs_0": 0, "runs_1": 0, "runs_2plus": 0, "units_multi": 0, "with_header": 0, "with_subdir": 0,
-            "pair_line": 0, "branch": 0, "units_total": 0, "programs_with_dotted_unit_name": 0, "programs_with_stale_units": 0, "programs_with_included_fragment": 0, "programs_with_xmacro_table": 0, "programs_with_statement_macro_header": 0,
+            "pair_line": 0, "branch": 0, "units_total": 0, "programs_with_dotted_unit_name": 0, "programs_with_stale_units": 0, "programs_with_corrupted_counter_unit": 0, "programs_with_included_fragment": 0, "programs_with_xmacro_table": 0, "programs_with_statement_macro_header": 0,
             "files_with_lines_but_no_function_compared": 0, "programs_with_absolute_include_dir": 0, "units_compiled_by_absolute_path": 0, "absolute_source_files_compared": 0, "stale_units": 0, "failed_items_in_model_runs": 0, "thread_counts": list(THREADS), "lines_compared": 0, "functions_compared": 0, "multi_entry_lines_compared": 0, "counts_above_2^53_not_representable_as_f64": 0,
             "latch_multiple": 0, "latch_single": 0}
     exprs, ecases = [], []
@@ -278,6 +322,10 @@ def gcc_stream(chk, cli, ncases):
             if vlib.canon(reps[n]["report"]) != vlib.canon(r1):
                 chk.violation({"kind": "oracle", "stream": "gcc", "case": case, "threads": n, "impl": reps[n]["report"], "expected": r1,
                                "clause": "every thread count gives the same report"}, tag="gcc")
+        dist["programs_with_corrupted_counter_unit"] += bool(o["corrupt"])
+        if o["without"] is not None and vlib.canon(o["without"]) != vlib.canon(r1):
+            chk.violation({"kind": "oracle", "stream": "gcc", "case": case, "corrupt": o["corrupt"], "impl": r1, "expected": o["without"],
+                           "clause": "a unit whose gcov output is rejected contributes nothing and leaves the other units' data untouched (same report as without it)"}, tag="gcc")
         if o["tmp_leftover"]:
             chk.violation({"kind": "oracle", "stream": "gcc", "case": case, "left": o["tmp_leftover"], "clause": "temporary directory removed"}, tag="gcc")
         acc = {s: a for s, a in o["text"].items() if own_source(s) and a["lines"]}
@@ -442,6 +490,8 @@ def llvm_model_expr(case):
             walk.append(([int(e["id"][1:])], True, min(len(content), 128), content[:4] == b"\x7fELF" and len(content) > 52))
         if bins["ignore_file"]:
             walk.append(([9999], True, 16, False))
+        for k, (lp, tgt) in enumerate(bins.get("links", [])):
+            walk.append(([8000 + k], False, 0, False))      # a symbolic link: file_type() is not a regular file
         bpath = Raw("(BPDir (map mk_fentry %s))" % coq(walk))
     table = []
     for e in bins["ents"]:
@@ -483,14 +533,27 @@ def llvm_stream(chk, cli, ncases):
     # successful exports / merge that print warnings on stderr, next to an export that really fails; and a failing merge
     warn = dict(same, warn_ids=["B0", "B3", "B4"], merge_warns=True, threads=[1, 2])
     mfail = dict(same, merge_fails=True, threads=[1, 2])
-    cases = [wit, same, coll, coll2, warn, mfail] + cases
+    # symbolic links to a binary (libfoo.so -> libfoo.so.1 -> libfoo.so.1.2), to a directory, dangling: the real file is exported once
+    lnk = dict(same, bins={"ents": [{"path": "lib/libfoo.so.1.2", "kind": "elf_noexec", "id": "B0", "outcome": "ok"},
+                                    {"path": "libexec/tool", "kind": "elf", "id": "B1", "outcome": "ok"},
+                                    {"path": "libexec/broken", "kind": "elf", "id": "B3", "outcome": "fail"}],
+                             "ignore_file": False, "single": None,
+                             "links": [["lib/libfoo.so.1", "libfoo.so.1.2"], ["lib/libfoo.so", "libfoo.so.1"], ["bin/tool", "../libexec/tool"],
+                                       ["bin/gone", "../libexec/nothing"], ["libexec2", "libexec"]]}, threads=[1, 4])
+    # several .profdata inputs (plain arguments first, then a directory and a zip) next to .profraw ones: all go through the merge
+    pdata = dict(same, inputs=[{"kind": "plain", "name": "first.profdata", "files": [["first.profdata", "P1"]], "noise": []},
+                               {"kind": "plain", "name": "second.profdata", "files": [["second.profdata", "P2"]], "noise": []},
+                               {"kind": "dir", "name": "d", "files": [["x.profdata", "P3"], ["y/z.profdata", "P4"], ["r.profraw", "P5"]], "noise": []},
+                               {"kind": "zip", "name": "z.zip", "files": [["x.profdata", "P6"]], "noise": []}], threads=[1, 2])
+    pdata1 = dict(same, inputs=[{"kind": "plain", "name": "only.profdata", "files": [["only.profdata", "P1"]], "noise": []}], threads=[1])
+    cases = [wit, same, coll, coll2, warn, mfail, lnk, pdata, pdata1] + cases
     with concurrent.futures.ThreadPoolExecutor(max_workers=6) as ex:
         outs = list(ex.map(lambda t: llvm_case(cli, sc, t[0], t[1]), enumerate(cases)))
     known = {e["key"]: e for e in vlib.known_findings(chk.pid) if e.get("status") == "known"}
     dist = {"cases": len(cases), "grcov_runs": 0, "profiles": 0, "inputs_dir": 0, "inputs_zip": 0, "inputs_plain": 0, "both_kinds": 0,
             "same_name_in_several_archives": 0, "archives_with_slash_underscore_colliding_names": 0, "binaries": 0, "executables": 0, "failing_exports": 0, "garbage_exports": 0,
             "non_executables": 0, "hidden_or_ignored_executables": 0, "extra_exports_of_non_executables": 0, "single_file_binary_path": 0,
-            "merge_failure_cases": 0, "merges_with_stderr_warning": 0, "successful_exports_with_stderr_warning": 0, "reports_with_shared_files": 0, "cases_with_same_named_executables": 0, "class_executables_not_exported": 0, "class_executables_exported": 0}
+            "merge_failure_cases": 0, "binary_trees_with_symlinks": 0, "cases_with_two_or_more_profdata": 0, "merges_with_stderr_warning": 0, "successful_exports_with_stderr_warning": 0, "reports_with_shared_files": 0, "cases_with_same_named_executables": 0, "class_executables_not_exported": 0, "class_executables_exported": 0}
     exprs, ecases = [], []
     for case, runs in zip(cases, outs):
         exp = tg.expected_profiles(case["inputs"])
@@ -509,6 +572,8 @@ def llvm_stream(chk, cli, ncases):
         dist["non_executables"] += sum(not tg.is_executable(e) for e in case["bins"]["ents"])
         dist["hidden_or_ignored_executables"] += len(cls)
         dist["single_file_binary_path"] += bool(case["bins"]["single"])
+        dist["binary_trees_with_symlinks"] += bool(case["bins"].get("links"))
+        dist["cases_with_two_or_more_profdata"] += len(exp["profdata"]) >= 2
         exe_names = [os.path.basename(e["path"]) for e in case["bins"]["ents"] if tg.is_executable(e) and not tg.filtered_by_walker(e, case["bins"])]
         dist["cases_with_same_named_executables"] += len(exe_names) != len(set(exe_names))
         dist["merge_failure_cases"] += case["merge_fails"]
@@ -656,10 +721,10 @@ def run(chk):
     chk.extra["toolchain"] = {"gcov": v, "gcc": sh(["gcc", "--version"], "/").stdout.decode().split("\n")[0]}
     chk.cov["rule"] = ("(GCC) seeded C programs (1-3 translation units, optional sub-directory unit, header with static inline functions, straight-line / "
                        "if-else / for / while / switch / nested / ternary bodies, optional two functions on one line), gcc --coverage -O0, 0-3 runs (two corpus programs at -O2 whose closed-form counting loop yields odd line counts above 2^53); "
-                       "gcov -b -c text account (cross-checked with gcov --json-format) vs grcov -t lcov [--branch] --threads 1,2,3,4,8; several translation units per program, some with an extra dot in the file name, a header with executable code in an include directory given as an absolute -I path and units compiled through their absolute path (sources matched by the name gcov itself reports), files that own executable lines but no function (statement fragment #included inside a body, X-macro .def table expanded inside a function, header contributing only a statement macro), some stale (recompiled after the run: gcov fails on them and they must contribute nothing); glue model fed with "
+                       "gcov -b -c text account (cross-checked with gcov --json-format) vs grcov -t lcov [--branch] --threads 1,2,3,4,8; several translation units per program, some with an extra dot in the file name, a header with executable code in an include directory given as an absolute -I path and units compiled through their absolute path (sources matched by the name gcov itself reports), files that own executable lines but no function (statement fragment #included inside a body, X-macro .def table expanded inside a function, header contributing only a statement macro), some with one .gcda arc counter overwritten by 2^64-1 (gcov succeeds, its JSON carries count -1 and is rejected: the unit contributes nothing, same report as without it), some stale (recompiled after the run: gcov fails on them and they must contribute nothing); glue model fed with "
                        "what `gcov <gcno> -i` leaves in a worker directory.  (LLVM) recording llvm-profdata/llvm-cov stand-ins under --llvm-path; "
                        "layouts over directories, zips, plain arguments (same relative names in several archives, names differing only by '/' vs '_', _1 suffixes, unique bytes per profile and sha1 of every merge input logged by the stand-in, noise files, both profile kinds); "
-                       "binary trees with ELF files with/without exec bit, distinct executables sharing a file name in different directories, scripts, text, empty and 1-byte files, failing and unparsable exports, exports and merges that exit 0 but print warnings on stderr, nothing left in TMPDIR (also after a failing merge), dot-directories, "
+                       "binary trees with ELF files with/without exec bit, distinct executables sharing a file name in different directories, scripts, text, empty and 1-byte files, failing and unparsable exports, exports and merges that exit 0 but print warnings on stderr, nothing left in TMPDIR (also after a failing merge), symbolic links to binaries / to directories / dangling, dot-directories, "
                        ".ignore rules, single-file binary path, merge failure; non-trivial = distinct case whose run exported at least one binary / distinct program")
     chk.cov["trusted_base"] = ["Coq kernel; vm_compute for the correspondence", "gcc 12 / gcov 12 themselves (the account IS gcov's output)",
                                "the driver's readers of gcov text, gcov JSON and grcov's lcov report", "the stub tools and their logs",
